@@ -9,7 +9,7 @@ import time
 from dataclasses import dataclass, field
 from pathlib import Path
 
-from .tlaparse import parse_state, parse_call, parse_value
+from .tlaparse import parse_state, parse_call, parse_value, parse_value_at
 
 SPEC_DIR = Path(__file__).resolve().parent.parent / "spec"
 JAR = "/opt/veriftools/tla/tla2tools.jar:/opt/veriftools/tla/CommunityModules-deps.jar"
@@ -222,11 +222,10 @@ def validate_traces(module: str, cfg: str, trace_file: Path, *, workdir: Path, n
         raise MachineryError(f"trace validation {module}/{cfg} failed to run to completion: "
                              f"violated={r.violated} post={r.postcondition_false} error={r.error}\n{r.out[-3000:]}")
     rejects = []
-    for ln in r.out.splitlines():
-        m = _RE_VERDICT.match(ln.strip())
-        if m and m.group(1) == "REJECT":
-            vals = parse_value("<<" + m.group(2) + ">>")
-            rejects.append(tuple(vals))
+    # TLC pretty-prints long tuples over several lines: scan the whole output and bracket-match
+    for m in re.finditer(r'<<\s*"REJECT"', r.out):
+        vals, _ = parse_value_at(r.out, m.start())
+        rejects.append(tuple(vals[1:]))
     return r, rejects
 
 
